@@ -556,6 +556,23 @@ where
                 .max(self.vec_znx_big_normalize_tmp_bytes())
     }
 
+    /// Returns the minimum scratch-space size in bytes required by
+    /// [`cmux_assign_neg`][Self::cmux_assign_neg], which on top of [`cmux`][Self::cmux]
+    /// stores `a - res` in a temporary GLWE.
+    fn cmux_assign_neg_tmp_bytes<R, A, B>(&self, res_infos: &R, a_infos: &A, selector_infos: &B) -> usize
+    where
+        R: GLWEInfos,
+        A: GLWEInfos,
+        B: GGSWInfos,
+    {
+        GLWE::<Vec<u8>>::bytes_of_from_infos(&GLWELayout {
+            n: selector_infos.n(),
+            base2k: res_infos.base2k(),
+            k: res_infos.max_k().max(a_infos.max_k()),
+            rank: res_infos.rank(),
+        }) + self.cmux_tmp_bytes(res_infos, a_infos, selector_infos)
+    }
+
     // res = (t - f) * s + f
     fn cmux<R, T, F, S>(&self, res: &mut R, t: &T, f: &F, s: &S, scratch: &mut Scratch<BE>)
     where
